@@ -961,6 +961,15 @@ def rechunk(x, chunks, *, min_mem=None, allow_irregular=True):
     cubed.Array
         An array with the desired chunks.
     """
+    if array_size(x.shape) == 0:
+        # zero-size array: no data to move, but the result must have the requested chunks
+        normalized_chunks = _normalize_rechunk_chunks(x, chunks)
+        if x.chunks == normalized_chunks:
+            return x
+        from cubed.array_api.creation_functions import empty
+
+        return empty(x.shape, dtype=x.dtype, chunks=normalized_chunks, spec=x.spec)
+
     out = x
     for copy_chunks, target_chunks in _rechunk_plan(
         x, chunks, min_mem=min_mem, allow_irregular=allow_irregular
@@ -969,7 +978,7 @@ def rechunk(x, chunks, *, min_mem=None, allow_irregular=True):
     return out
 
 
-def _rechunk_plan(x, chunks, *, min_mem=None, allow_irregular=True):
+def _normalize_rechunk_chunks(x, chunks):
     if isinstance(chunks, dict):
         chunks = {validate_axis(c, x.ndim): v for c, v in chunks.items()}
         for i in range(x.ndim):
@@ -980,7 +989,11 @@ def _rechunk_plan(x, chunks, *, min_mem=None, allow_irregular=True):
     if isinstance(chunks, (tuple, list)):
         chunks = tuple(lc if lc is not None else rc for lc, rc in zip(chunks, x.chunks))
 
-    normalized_chunks = normalize_chunks(chunks, x.shape, dtype=x.dtype)
+    return normalize_chunks(chunks, x.shape, dtype=x.dtype)
+
+
+def _rechunk_plan(x, chunks, *, min_mem=None, allow_irregular=True):
+    normalized_chunks = _normalize_rechunk_chunks(x, chunks)
     if x.chunks == normalized_chunks:
         return
     if array_size(x.shape) == 0:
